@@ -69,6 +69,10 @@ def _layout(base):
     os.symlink("../../outside/sentinel.txt", os.path.join(root, "data", "flink"))  # file link pointing OUTSIDE
     open(os.path.join(root, "data", "x"), "wb").write(b"inside")
     os.symlink(root, os.path.join(S, "rootlink"))
+    os.symlink("sentinel.txt", os.path.join(S, "outside", "current"))          # links that LIVE outside the root
+    os.symlink("nowhere", os.path.join(S, "outside", "dangling"))
+    os.makedirs(os.path.join(S, "outside", "data"))
+    open(os.path.join(S, "outside", "data", "x"), "wb").write(b"SENTINEL-5")    # same tail as the table's own data/x
     return S
 
 
@@ -80,6 +84,9 @@ def _fingerprint(S):
             fp[r] = ("dir", st.st_mtime_ns, tuple(sorted(ds + fs)))
             for f in fs:
                 p = os.path.join(r, f)
+                if os.path.islink(p):
+                    fp[p] = ("link", os.readlink(p))
+                    continue
                 st = os.stat(p)
                 fp[p] = ("file", st.st_size, st.st_mtime_ns, hashlib.sha1(open(p, "rb").read()).hexdigest())
     st = os.stat(S)
@@ -102,13 +109,28 @@ def _paths(ctx, S):
             out.append("/" + rel)
     out += [os.path.join(S, "outside", "sentinel.txt"), os.path.join(S, "root2", "f.txt"), os.path.join(S, "root", "data", "x"),
             os.path.join(S, "root") + "2/f.txt", os.path.join(S, "rootlink", "data", "x"), os.path.join(S, "rootlink", "..", "outside", "sentinel.txt"),
-            "/etc/passwd", "//etc/passwd", "\x00", "data/\x00x"]
+            "/etc/passwd", "//etc/passwd", "\x00", "data/\x00x",
+            # links that live OUTSIDE, reached by escaping spellings
+            "../outside/current", "/../outside/current", "linkout/current", "data/../../outside/dangling", "linkout/dangling",
+            # true absolute paths outside the root whose TAIL names something that exists inside the table
+            os.path.join(S, "outside", "data", "x"), "/nonexistent/elsewhere/data/x", os.path.join(S, "root2", "data", "x"),
+            "/mnt/backup/metadata/" + "version-hint.text", os.path.join(S, "outside", "metadata", "manifests")]
     seen, res = set(), []
     for p in out:
         if p not in seen:
             seen.add(p)
             res.append(p)
     return res
+
+
+def _lock_once(lp):
+    """take and drop the lock without waiting (creating the lock file is what touches the filesystem)"""
+    fl = getattr(lp, "lock", lp)
+    try:
+        if fl.acquire(blocking=False):
+            fl.release()
+    finally:
+        pass
 
 
 def _entry_points(t):
@@ -136,7 +158,7 @@ def _entry_points(t):
         "write_json": lambda p: st.write_json(p, {"a": 1}),
         "delete_file": lambda p: st.delete_file(p),
         "makedirs": lambda p: st.makedirs(p),
-        "create_lock": lambda p: st.create_lock(p),
+        "create_lock": lambda p: _lock_once(st.create_lock(p)),
     }
     return eps, mutating
 
@@ -150,6 +172,8 @@ def _judge(rep, S, root_real, ep, p, via, fp_before, outcome, exc, check_fp=True
         except Exception:       # noqa: BLE001
             continue
         if rp.startswith(S + os.sep) or rp == S:
+            if kind == "mkdir" and (root_real == rp or root_real.startswith(rp + os.sep)):
+                continue        # makedirs(exist_ok) walking over an ANCESTOR of the root: it exists, nothing is created
             if not (rp == root_real or rp.startswith(root_real + os.sep)):
                 touched.append((kind, os.path.relpath(rp, S), mode))
     case = {"kind": "path", "entry_point": ep, "path": p, "root_via": via}
@@ -199,6 +223,12 @@ def _oracle(ctx, rep, base):
                 rep.distribution[f"{ep}:{outcome.split(':')[0]}"] += 1
                 if outcome == "ok":
                     rep.nontrivial(["c17", ep, p, via])
+                if outcome == "ok" and ep in ("arrow_path", "open_parquet_source", "read_data_file") and os.path.isabs(p) and "\x00" not in p:
+                    first = [c_ for c_ in p.split("/") if c_][:1]
+                    rp_ = os.path.realpath(p)
+                    if first not in (["data"], ["metadata"]) and not (rp_ == root_real or rp_.startswith(root_real + os.sep)):
+                        rep.violate(f"C17:outside-path-silently-resolved:{ep}", f"{ep}({p!r}) via {via}: a true absolute path outside the root was accepted "
+                                    f"({str(val)[:60]!r}) instead of rejected", {"kind": "path", "entry_point": ep, "path": p, "root_via": via})
                 fp = _judge(rep, S, root_real, ep, p, via, fp, outcome, val, check_fp=False)
             fp2 = _fingerprint(S)
             if fp2 != fp:
